@@ -106,7 +106,15 @@ fn check_pair(src: &Sources, base: &Value, via_cli: bool, st: &mut Stats) -> Vec
             st.inc("cli_targets_regenerated_over_a_longer_one");
         }
         let _ = std::fs::write(dir.path.join("base.yaml"), &base_yaml);
-        let r = run_cli(&dir.path, &src.files[0].0, "out.yaml", Some("base.yaml"));
+        // every third run regenerates in place: the base is the target of the previous generation
+        let in_place = hash64(&base_yaml) % 3 == 0;
+        let r = if in_place {
+            st.inc("cli_runs_with_base_and_target_the_same_file");
+            let _ = std::fs::write(dir.path.join("out.yaml"), &base_yaml);
+            run_cli(&dir.path, &src.files[0].0, "out.yaml", Some("out.yaml"))
+        } else {
+            run_cli(&dir.path, &src.files[0].0, "out.yaml", Some("base.yaml"))
+        };
         st.inc("cli_runs");
         if !r.success() {
             return vec![Violation::new(
